@@ -152,6 +152,7 @@ type rawState struct {
 	curWrite  *rawWrite
 	stopErr   error // what the link reported when the reader stopped (nil: still running)
 	linkReads int
+	curBuf    int
 }
 
 var (
@@ -225,7 +226,14 @@ func (st *rawState) start() {
 		nt := NewNet(s)
 		st.link.OnRead = func(d dgram, n int) {
 			st.linkReads++
-			b := d.b[:n]
+			// The reference NIC judges the frame as it was on the link, cut only to what a
+			// reader offering curBuf payload bytes has to provide room for (60-byte IP
+			// header + 8-byte UDP header + payload): a connection that reads with less
+			// room and thereby loses a good frame is at fault, not the frame.
+			b := d.b
+			if room := 68 + st.curBuf; len(b) > room {
+				b = b[:room]
+			}
 			s.Ev("link.rx", -1, int64(n), d.tag, nil)
 			if e, ok := nicAccept(b, st.bound); ok {
 				st.expect = append(st.expect, e)
@@ -244,6 +252,7 @@ func (st *rawState) start() {
 			for {
 				size := []int{1500, 1500, 2048, 4096, 1536}[t.Choose(5)]
 				buf := make([]byte, size)
+				st.curBuf = size
 				for k := range buf {
 					buf[k] = 0xcc
 				}
